@@ -10,7 +10,9 @@ Open Scope string_scope.
 
 Inductive value :=
 | VNull | VBool (b : bool) | VInt (z : Z) | VStr (s : string)
-| VArr (l : list value).                      (* list arrays of scalars, value semantics *)
+| VArr (l : list value)                       (* list arrays of scalars, value semantics *)
+| VObj (id : nat) (cls msg : string)          (* an exception object: identity, class, message *)
+| VErr (msg : string).                        (* an internal error (ThrowValue without an object) *)
 
 Inductive bop := Add | Sub | Mul | Lt | Le | Gt | Ge | Eq | Ne | Concat.
 
@@ -25,6 +27,13 @@ Inductive expr :=
 | EPostInc (x : string)                        (* $x++ *)
 | EArr (a : args)                              (* [e1, ..., en] *)
 | ECall (f : string) (a : args)
+| ENew (cls : string) (m : expr)               (* new C(m): a fresh exception object *)
+| EMsg (e : expr)                              (* e->getMessage() *)
+| EClass (e : expr)                            (* get_class(e) *)
+| ESame (a b : expr)                           (* a === b *)
+| EPanic                                       (* an expression whose evaluation fails inside the Go
+                                                  runtime (1 << -1): TryStatement's guard turns the panic
+                                                  into a catchable internal error *)
 with args := ANil | ACons (e : expr) (r : args).
 
 (* statements; blocks are SSeq/SSkip trees *)
@@ -44,8 +53,11 @@ Inductive stmt :=
 | SContinue (n : nat)
 | SReturn (e : option expr)
 | SStatic (x : string) (init : value)          (* static $x = <literal>; *)
+| STry (b : stmt) (cs : catches) (f : stmt)    (* try {b} catch (T $x) {..} ... finally {f}; no finally = SSkip *)
+| SThrow (e : expr)
 with elifs := EINil | EICons (c : expr) (b : stmt) (r : elifs)
-with clauses := CLNil | CLCase (e : expr) (b : stmt) (r : clauses) | CLDefault (b : stmt) (r : clauses).
+with clauses := CLNil | CLCase (e : expr) (b : stmt) (r : clauses) | CLDefault (b : stmt) (r : clauses)
+with catches := CTNil | CTCons (ty : string) (x : option string) (b : stmt) (r : catches).
 
 Record fundef := { fname : string; fparams : list (string * option value); fbody : stmt }.
 Record prog := { funcs : list fundef; main : stmt }.
@@ -70,7 +82,10 @@ Fixpoint update (x : string) (v : value) (e : env) : env :=
 Definition frame := (env * list string)%type.
 Definition empty_frame : frame := ([], []).
 
-(* global state: static cells keyed by (function, variable); echoed chunks, newest first *)
+(* global state: static cells keyed by (function, variable); the log, newest first (echoed text,
+   and two ghost events that the try statement records: entering a try, starting its finally);
+   the next object identity *)
+Inductive chunk := COut (s : string) | CTry | CFin.
 Definition skey := (string * string)%type.
 Definition skey_eqb (a b : skey) : bool := String.eqb (fst a) (fst b) && String.eqb (snd a) (snd b).
 Definition store := list (skey * value).
@@ -81,21 +96,28 @@ Fixpoint sset (k : skey) (v : value) (s : store) : store :=
   | [] => [(k, v)]
   | (k', w) :: r => if skey_eqb k k' then (k', v) :: r else (k', w) :: sset k v r
   end.
-Definition glob := (store * list string)%type.
-Definition empty_glob : glob := ([], []).
+Definition glob := (store * list chunk * nat)%type.
+Definition empty_glob : glob := ([], [], O).
+Definition gstat (g : glob) : store := fst (fst g).
+Definition gout (g : glob) : list chunk := snd (fst g).
+Definition gnext (g : glob) : nat := snd g.
+Definition set_stat (st : store) (g : glob) : glob := (st, gout g, gnext g).
+Definition mark (c : chunk) (g : glob) : glob := (gstat g, c :: gout g, gnext g).
+Definition bump (g : glob) : glob := (gstat g, gout g, S (gnext g)).
 
 Fixpoint mem (x : string) (l : list string) : bool :=
   match l with [] => false | y :: r => String.eqb x y || mem x r end.
 
 (* read / write a variable of the function [fn]'s current call *)
 Definition rd (fn x : string) (fr : frame) (g : glob) : value :=
-  if mem x (snd fr) then match sget (fn, x) (fst g) with Some v => v | None => VNull end
+  if mem x (snd fr) then match sget (fn, x) (gstat g) with Some v => v | None => VNull end
   else lookup x (fst fr).
 Definition wr (fn x : string) (v : value) (fr : frame) (g : glob) : frame * glob :=
-  if mem x (snd fr) then (fr, (sset (fn, x) v (fst g), snd g))
+  if mem x (snd fr) then (fr, set_stat (sset (fn, x) v (gstat g)) g)
   else ((update x v (fst fr), snd fr), g).
-Definition emit (s : string) (g : glob) : glob := (fst g, s :: snd g).
-Definition output (g : glob) : string := String.concat "" (rev (snd g)).
+Definition emit (s : string) (g : glob) : glob := mark (COut s) g.
+Definition chunk_text (c : chunk) : string := match c with COut s => s | _ => "" end.
+Definition output (g : glob) : string := String.concat "" (map chunk_text (rev (gout g))).
 
 (* ---------- scalar operators (shared, see header) ---------- *)
 Definition z_to_str (z : Z) : string := NilZero.string_of_int (Z.to_int z).
@@ -103,11 +125,13 @@ Definition to_str (v : value) : string :=
   match v with
   | VNull => "" | VBool true => "true" | VBool false => "false"
   | VInt z => z_to_str z | VStr s => s | VArr _ => "Array"
+  | VObj _ _ _ => "Object" | VErr m => m
   end.
 Definition truthy (v : value) : bool :=
   match v with
   | VNull => false | VBool b => b | VInt z => negb (z =? 0)%Z
   | VStr s => negb (String.eqb s "") | VArr l => match l with [] => false | _ => true end
+  | VObj _ _ _ | VErr _ => true
   end.
 Definition scalar_eqb (a b : value) : bool :=
   match a, b with
@@ -132,6 +156,24 @@ Definition binop (o : bop) (a b : value) : value :=
   | Concat, _, _ => VStr (to_str a ++ to_str b)
   | _, _, _ => VNull
   end.
+(* a === b on scalars and exception objects (identity) *)
+Definition same_value (a b : value) : bool :=
+  match a, b with
+  | VObj i _ _, VObj j _ _ => Nat.eqb i j
+  | _, _ => scalar_eqb a b
+  end.
+(* $e->getMessage() and get_class($e) of a caught exception *)
+Definition msg_of (v : value) : option string :=
+  match v with VObj _ _ m => Some m | VErr m => Some m | _ => None end.
+Definition class_of (v : value) : option string :=
+  match v with VObj _ c _ => Some c | _ => None end.
+(* what `throw v` throws: an object or a caught internal error as it is; anything else becomes an
+   internal error carrying its string form *)
+Definition thrown_of (v : value) : value :=
+  match v with VObj _ _ _ | VErr _ => v | _ => VErr (to_str v) end.
+(* does `catch (T ...)` accept the thrown value *)
+Definition catchfn := string -> value -> bool.
+
 (* $x++ on the value held by the variable: (new value, value of the expression) *)
 Definition incr_value (v : value) : value * value :=
   match v with
